@@ -270,11 +270,32 @@ def template_programs():
                               "main": Fn([], Block([Let("a", List(I(1))), Expr(Call("f", V("a"))), Print(V("a"))]))})
     add("param_scalar_copied", {"f": Fn(["n"], Block([Expr(Asg(V("n"), I(9))), Print(V("n"))])),
                                 "main": Fn([], Block([Let("a", I(1)), Expr(Call("f", V("a"))), Print(V("a"))]))})
+    # every loop over a value starts at its beginning: after a loop that was left early, inside a loop over the same value,
+    # and on a second call of the function that contains it
+    for kind, mk, ty in (("str", lambda: S("abc"), "str"), ("list", lambda: List(I(1), I(2), I(3)), "[int]"), ("range", lambda: Range(I(0), I(3)), "range")):
+        add("iter_again_after_break_" + kind, main(Let("v", mk()), For("c", V("v"), Block([Print(S("first"), V("c")), Expr(If(B(True), Block([Break()])))])),
+                                                  For("c", V("v"), Block([Print(S("second"), V("c"))]))))
+        add("iter_nested_same_" + kind, main(Let("v", mk()), For("a", V("v"), Block([For("b", V("v"), Block([Print(V("a"), V("b"))]))]))))
+        add("iter_return_twice_" + kind, {"firstof": Fn(["v"], Block([For("c", V("v"), Block([Print(S("see"), V("c")), Ret(I(1))]))], I(0)), "int", [ty]),
+                                          "lit": Fn([], Block([For("c", mk(), Block([Print(S("lit"), V("c")), Ret(I(1))]))], I(0)), "int"),
+                                          "main": Fn([], Block([Let("v", mk()), Print(Call("firstof", V("v"))), Print(Call("firstof", V("v"))),
+                                                                Print(Call("lit")), Print(Call("lit"))]))})
+        add("iter_continue_then_again_" + kind, main(Let("v", mk()), Let("n", I(0)),
+                                                     For("c", V("v"), Block([Expr(Asg(V("n"), I(1), "+=")), Expr(If(Bin("==", V("n"), I(2)), Block([Continue()]))), Print(S("a"), V("c"))])),
+                                                     For("c", V("v"), Block([Print(S("b"), V("c"))]))))
     # scalar conversions with `as`: int <-> float truncates toward zero, 0 is false
     add("casts_scalar", main(*([Print(As(F(n, sh), "int"), As(Un("-", F(n, sh)), "int"), As(F(n, sh), "bool"), As(F(n, sh), "float")) for n, sh in ((5, 1), (7, 2), (1, 1), (15, 3), (8, 0))] +
                                [Print(As(I(n), "float"), As(I(n), "bool"), As(Un("-", I(n)), "float"), As(I(n), "int")) for n in (0, 1, 2, 7)] +
                                [Print(As(B(b), "int"), As(B(b), "float"), As(B(b), "bool")) for b in (True, False)] +
                                [Let("x", As(Bin("+", As(I(7), "float"), F(1, 1)), "int")), Print(Bin("*", V("x"), I(2)), Bin("/", As(V("x"), "float"), F(4, 0)))])))
+    # reading a scalar out of a list / object into a variable or a parameter copies it
+    add("extract_then_mutate", {"bump": Fn(["n"], Block([Expr(Asg(V("n"), I(100), "+=")), Print(S("n"), V("n"))])),
+                                "main": Fn([], Block([Let("xs", List(I(1), I(2))), Let("x", Idx(V("xs"), I(0))), Expr(Asg(Idx(V("xs"), I(0)), I(9))), Print(V("x"), V("xs")),
+                                                      Let("o", Obj(f=I(1), g=S("s"))), Let("y", Mem(V("o"), "f")), Expr(Asg(Mem(V("o"), "f"), I(5))), Print(V("y"), Mem(V("o"), "f")),
+                                                      Expr(Asg(V("x"), I(7))), Print(V("x"), V("xs")), Expr(Call("bump", Idx(V("xs"), I(1)))), Expr(Call("bump", Mem(V("o"), "f"))),
+                                                      Print(V("xs"), Mem(V("o"), "f"))]))})
+    add("many_shadowed_names", main(*([Let("x", I(i)) for i in range(12)] + [Let("x1", I(100)), Let("x10", I(200)), Print(V("x"), V("x1"), V("x10")),
+                                                                                Expr(Asg(V("x1"), I(7))), Print(V("x"), V("x1"), V("x10"))])))
     # for iterates over a snapshot
     add("for_snapshot_push", main(Let("l", List(I(1), I(2))),
                                   For("x", V("l"), Block([Expr(MCall(V("l"), "push", Bin("*", V("x"), I(10)))),
